@@ -271,3 +271,13 @@ package semantic
 //@   ensures result != nil
 //@ extern (Checker) CheckAll
 //@   modifies *
+
+// ---- Deref (C05): a type reference followed to the end ----
+// On success the result is a type of the returned file that is neither a typedef nor a reference into an include:
+// typedef chains, local or crossing files, have been followed to the end; a reference to a non-typedef definition of an
+// include comes back as a fresh local name of that include with the category recorded there.
+//@ func Deref(ast *parser.Thrift, t *parser.Type) (*parser.Thrift, *parser.Type, error)
+//@   requires ast != nil && t != nil && wfThs()
+//@   ensures result2 == nil ==> result0 != nil && result1 != nil && result1.Reference == nil && (result1.IsTypedef == nil || !*result1.IsTypedef)
+//@   ensures result2 == nil && old(t.Reference) == nil && (old(t.IsTypedef) == nil || !old(*t.IsTypedef)) ==> result0 == ast && result1 == t
+//@   ensures result2 != nil ==> result0 == nil && result1 == nil
